@@ -13,6 +13,11 @@ def run(chk, tier):
     P = Program(("lib", "utils", "lstopo"))
     chk.units |= set("utils/hwloc/" + u for u in UTIL_UNITS) | set("utils/lstopo/" + u for u in LSTOPO_UNITS) | {"utils/hwloc/hwloc-calc.h", "utils/hwloc/misc.h"}
     calc = P.unit("hwloc-calc.c")
+    chk.rule("R-SIBLING", "the walker that counts the objects of a level inside the given sets and the walker that returns the i-th of them apply the same filter: "
+             "each is evaluated under every feasible valuation of the filter predicates (forced call results) and the accepted sets are compared")
+    import sibling
+    nsv = sibling.filter_agreement(chk, P, "hwloc-calc.c", "hwloc_calc_get_nbobjs_inside_sets_by_depth", "hwloc_calc_get_obj_inside_sets_by_depth")
+    chk.floor("R-SIBLING", "predicate valuations evaluated", nsv, 8)
     chk.rule("R-TAB", "hwloc-calc operator table: prefix character -> append mode -> bitmap combinator (extracted from the AST)")
     f = calc.func("hwloc_calc_append_set")
     if not chk.need(f is not None, "R-TAB: hwloc_calc_append_set vanished"):
